@@ -10,6 +10,7 @@ MC_CFG = """CONSTANTS
   NDerived = {nder}
   EqImpl <- {eq}
   Emit = {emit}
+  Focus = "{focus}"
 INIT Init
 NEXT Next
 INVARIANTS RepRefinesAbs Commutative Associative SubIsAddNeg SubThenAdd NegInvolutive EqSemantic ContainsIsOrder EmitCase
@@ -46,6 +47,13 @@ def random_case(rng):
     # a small pool of classes so that values overlap
     pols = [rand_bytes(rng) for _ in range(2)] + [[]]
     names = [rand_bytes(rng) for _ in range(2)] + [[]]
+    if rng.random() < 0.3:
+        # spliced classes: one byte string cut at different places, so that distinct classes share their
+        # "policy followed by name" bytes (policies have no fixed length in the IR, and a named class has none)
+        s = [rng.randint(0, 255) for _ in range(rng.randint(2, 6))]
+        k1, k2 = rng.randint(1, len(s) - 1), rng.randint(0, len(s))
+        pols = [s[:k1], s[:k2], []]
+        names = [s[k1:], s[k2:], s]
     ops = []
     npush = rng.randint(2, 5)
     for _ in range(npush):
@@ -109,20 +117,27 @@ def check(tier, seed):
     quick = tier == "quick"
     # 1. exhaustive enumeration + design check
     amt, npush, nder = (1, 2, 1) if quick else (2, 2, 1)
-    r = core.tlc_mc("MC_Assets", MC_CFG.format(amt=amt, npush=npush, nder=nder, eq="VEq", emit="TRUE"),
+    r = core.tlc_mc("MC_Assets", MC_CFG.format(amt=amt, npush=npush, nder=nder, eq="VEq", emit="TRUE", focus="all"),
                     "c15_mc", workers=4 if quick else 10, timeout=1500, coverage=True)
     rep.add_tlc(r)
     cases = [c["ops"] for c in r.cases]
     rep.extra["mc_cases"] = len(cases)
     rep.extra["mc_constants"] = {"AmtMax": amt, "NPush": npush, "NDerived": nder}
     rep.exhaustive = True
+    # 1b. classes whose "policy ++ name" bytes coincide, with derivations two steps long: a value holding several of
+    # them, then a conversion, a difference or a negation of it
+    rsp = core.tlc_mc("MC_Assets", MC_CFG.format(amt=1, npush=2, nder=2, eq="VEq", emit="TRUE", focus="splice"),
+                      "c15_splice", workers=4, timeout=600)
+    rep.add_tlc(rsp)
+    cases += [c["ops"] for c in rsp.cases]
+    rep.extra["splice_cases"] = len(rsp.cases)
     # 2. design-level demonstration of the deviation (derived equality on the representation)
-    rd = core.tlc_mc("MC_Assets", MC_CFG.format(amt=1, npush=2, nder=0, eq="RepEqDerived", emit="FALSE"),
+    rd = core.tlc_mc("MC_Assets", MC_CFG.format(amt=1, npush=2, nder=0, eq="RepEqDerived", emit="FALSE", focus="all"),
                      "c15_dev", workers=2, timeout=300, expect_violation=True)
     rep.add_tlc(rd)
     rep.notes.append(f"deviation EqOnRepresentation: TLC finds a counterexample to {rd.violated} on the model")
     if not quick:
-        rs = core.tlc_mc("MC_Assets", MC_CFG.format(amt=2, npush=3, nder=2, eq="VEq", emit="TRUE"),
+        rs = core.tlc_mc("MC_Assets", MC_CFG.format(amt=2, npush=3, nder=2, eq="VEq", emit="TRUE", focus="all"),
                          "c15_sim", workers=8, timeout=240, simulate="num=12000", seed=seed)
         rep.add_tlc(rs)
         sim = [c["ops"] for c in rs.cases]
